@@ -194,7 +194,11 @@ func c15Accessors(tier string, seed int64, idx int) *core.Result {
 					ss.SendMsg(&svc.BV{Value: []byte{byte(i)}})
 				}
 			}()
-			go func() { defer wg.Done(); ss.SetTrailer(metadata.Pairs("t1", "v")); grpc.SetTrailer(ss.Context(), metadata.Pairs("t2", "v")) }()
+			go func() {
+				defer wg.Done()
+				ss.SetTrailer(metadata.Pairs("t1", "v"))
+				grpc.SetTrailer(ss.Context(), metadata.Pairs("t2", "v"))
+			}()
 			for {
 				var m svc.BV
 				if err := ss.RecvMsg(&m); err != nil {
@@ -383,6 +387,7 @@ func c15Aborts(tier string, seed int64, idx int) *core.Result {
 			spin(idx/2 + 2*s + 1)
 			var notProto string
 			st.RecvMsg(&notProto)
+			st.Trailer() // allowed once RecvMsg has returned an error
 		}()
 		close(start)
 		if r, _ := settle(tier, func() bool { return w.Left() == 0 }); r != "ok" {
